@@ -59,6 +59,11 @@ NP_OF = {
                            'right_eigenvalues_all']),
             ('MsmIts', ['_implied_timescales', 'implied_timescales_default', 'implied_timescales_n'])],
 }
+# every public function that accepts raw trajectories goes through the StateTraj constructor: its translation is validated (and its being translatable
+# is an obligation) for those properties too
+for _pid in ('C05', 'C06', 'C07', 'C08', 'C09', 'C10', 'C11', 'C13'):
+    if not any(m == 'StateTrajInit' for m, _k in NP_OF.get(_pid, [])):
+        NP_OF.setdefault(_pid, []).append(('StateTrajInit', ['init']))
 for _pid, _mods in NP_OF.items():
     KERNELS_OF.setdefault(_pid, [])
     KERNELS_OF[_pid] = KERNELS_OF[_pid] + _mods
